@@ -152,14 +152,8 @@ def replay_behaviours(ctx, oracle, cases, rng, members, check_cache):
                 compare(ctx, ctx.pid, kind, case, ei, ej, exp, [nm], obj=obj, extra={"reads": list(hist[:k + 1])})
             else:
                 read(obj, nm)
-            if not check_cache:
-                continue
-            cached = sorted(n for n in lazy_names if ("_" + ATTR[n]) in obj.__dict__)
-            want = steps[(kind, tuple(hist[:k + 1]))]
-            if cached != want:
-                ctx.violation(f"after reads {list(hist[:k+1])} the object caches {cached}, the model predicts {want}",
-                              {"kind": kind, "reads": list(hist[:k + 1]), "cached": cached, "model": want},
-                              {"clause": "cache", "kind": kind})
-                break
+            # (WHICH intermediate results the object keeps after a read is the model's bookkeeping, not a clause of the property: a first
+            #  version compared it with the private attributes of the `lazy_property` package and raised a false alarm on a refactor
+            #  to functools.cached_property.  What is bound is what the property states: every value, whatever was read before.)
     ctx.sample({"behaviour": [full[0][0], list(full[0][1])]})
     ctx.cov["behaviours_replayed"] = len(full)
